@@ -471,9 +471,9 @@ fn run_proto(args: &Args) -> i32 {
     let classes = ["7mod8", "4m1", "3mod8", "4m2"];
     // (bits, how many): contention needs several A values (33..64 bits: 8 values of A with 2 polynomials each);
     // below 33 bits there is one unit polynomial (a pool has one busy worker)
-    let mut sizes: Vec<u32> = vec![20, 28, 34, 36, 40, 44, 48, 52, 56, 60, 64, 64];
+    let mut sizes: Vec<u32> = vec![20, 28, 34, 40, 44, 48, 56, 60, 64];
     if thorough {
-        sizes.extend([16, 24, 32, 33, 35, 38, 42, 46, 50, 54, 58, 62, 63, 64, 64, 37, 41, 45]);
+        sizes.extend([16, 24, 32, 33, 35, 36, 38, 42, 46, 50, 52, 54, 58, 62, 63, 64, 64, 37, 41, 45]);
     }
     let mut stop = false;
     for (ii, &bits) in sizes.iter().enumerate() {
